@@ -1528,13 +1528,60 @@ def sup_cases(rng, n):
     return out
 
 
+def supers_variant():
+    """Which variant of resolve_all_transitive_super_types_recursive the current source implements:
+    'supm' if the loop skips already collected super types (repair of C05-F6), else 'sup'."""
+    try:
+        src = open(os.path.join(common.REPO, "crates", "samlang-checker", "src", "global_signature.rs"), encoding="utf-8").read()
+    except OSError:
+        return "sup"
+    body = src[src.find("fn resolve_all_transitive_super_types_recursive"):]
+    body = body[:body.find("\npub(super) fn resolve_all_transitive_super_types")]
+    return "supm" if re.search(r"collector\s*\.\s*types\s*\.\s*iter\(\)\s*\.\s*any\(", body) else "sup"
+
+
+def graph_cyclic(toks, start):
+    """Specification oracle, independent of model and code: is a cycle of the declaration graph
+    (toplevel -> toplevels of its declared super types) reachable from toplevel `start`?"""
+    edges = {}
+    for t in toks:
+        key, _, sups = t.split("/")
+        edges[key] = [] if sups == "-" else [re.match(r"n\d,(\d+),(\d+)", x).group(1, 2) for x in sups.split("|")]
+        edges[key] = [f"{m}.{i}" for m, i in edges[key]]
+    seen, stack = set(), [start]
+    while stack:
+        k = stack.pop()
+        if k in seen:
+            continue
+        seen.add(k)
+        stack += edges.get(k, [])
+    def on_cycle(k):
+        st, vis = list(edges.get(k, [])), set()
+        while st:
+            x = st.pop()
+            if x == k:
+                return True
+            if x not in vis:
+                vis.add(x); st += edges.get(x, [])
+        return False
+    return any(on_cycle(k) for k in seen)
+
+
 def check_supers(ctx, rng, n, stats):
+    op = supers_variant()
+    stats["sup_variant_memoised"] = int(op == "supm")
     cases = sup_cases(rng, n)
+    # deterministic diamond chains (shape of finding C05-F6): Ik : I(k-1), I(k-1)
+    for depth in (3, 6):
+        src = "interface C1 {\n  method m1(): int\n}\n" + "".join(f"interface C{k} : C{k-1}, C{k-1} {{\n  method m{k}(): int\n}}\n" for k in range(2, depth + 1))
+        src += "class C9<T1>(val v: T1) {\n  method k(): int = 0\n}\n"
+        toks = ["1.1//-"] + [f"1.{k}//n0,1,{k-1}()|n0,1,{k-1}()" for k in range(2, depth + 1)] + ["1.9/1/-"]
+        cases.append((src, toks, {k: f"n0,1,{k}()" for k in range(1, depth + 1)}))
     impl = run_impl(["sup " + json.dumps({"source": src, "queries": [f"C{i}" for i in q]}) for src, _, q in cases])
     mlines, idx = [], []
     for ci, (src, toks, q) in enumerate(cases):
         for i, t in q.items():
-            mlines.append("sup " + " ".join(toks) + " ? " + t); idx.append((ci, i))
+            mlines.append(op + " " + " ".join(toks) + " ? " + t); idx.append((ci, i))
     model = run_model(mlines)
     per = {}
     for (ci, i), m in zip(idx, model):
@@ -1553,6 +1600,10 @@ def check_supers(ctx, rng, n, stats):
             ok = bool(mm) and g is not None and g[0] == "c=" + mm.group(1) and g[1] == mm.group(3) and mm.group(2) == "0"
             if ok:
                 stats["sup_cyclic"] += int(mm.group(1) == "1")
+                if (mm.group(1) == "1") != graph_cyclic(toks, f"1.{i}"):
+                    ctx.violation("is_cyclic of resolve_all_transitive_super_types disagrees with the declaration graph "
+                                  f"(C{i}: reported {mm.group(1)}, a reachable cycle {'exists' if mm.group(1) == '0' else 'does not exist'})",
+                                  {"protocol": "sup", "source": src, "query": f"C{i}", "impl": ia, "decls": toks})
                 continue
             stats["sup_disagree"] += 1
             if stats["sup_disagree"] <= 3:
@@ -2025,7 +2076,7 @@ def run(ctx):
     rng = ctx.rng
     stats = {k: 0 for k in ["tok", "tok_disagree", "tok_literals", "tok_out_of_range", "tok_f1", "lit", "lit_f1",
                             "asg", "asg_disagree", "asg_accept", "asg_anyfree", "slv", "slv_accept",
-                            "misc", "misc_rejected", "misc_accepted", "pat", "pat_rejected", "pat_accepted", "pat_slipped", "pat_overstrict", "sup", "sup_cyclic", "sup_disagree", "sup_prog_cyclic", "scope", "scope_rejected", "scope_accepted", "scope_slipped", "scope_base_rejected", "scope_ssa_compared", "scope_ssa_disagree", "scope_ssa_unparsed", "gate", "gate_rejected", "gate_accepted", "gate_slipped", "gate_overstrict", "join", "join_rejected", "join_accepted", "join_slipped", "join_base_rejected", "base_programs", "mutants", "mutants_rejected", "mutants_slipped", "tok_oracle_fail", "slv_disagree", "asg_spec_fail", "prog_f1", "prog_f2",
+                            "misc", "misc_rejected", "misc_accepted", "pat", "pat_rejected", "pat_accepted", "pat_slipped", "pat_overstrict", "sup", "sup_cyclic", "sup_disagree", "sup_variant_memoised", "sup_prog_cyclic", "scope", "scope_rejected", "scope_accepted", "scope_slipped", "scope_base_rejected", "scope_ssa_compared", "scope_ssa_disagree", "scope_ssa_unparsed", "gate", "gate_rejected", "gate_accepted", "gate_slipped", "gate_overstrict", "join", "join_rejected", "join_accepted", "join_slipped", "join_base_rejected", "base_programs", "mutants", "mutants_rejected", "mutants_slipped", "tok_oracle_fail", "slv_disagree", "asg_spec_fail", "prog_f1", "prog_f2",
                             "sample_sites_total", "sample_bases_accepted"]}
     hist, errkinds, samples_out = {}, {}, []
     built = os.path.exists(common.harness_bin("C06")) and os.path.exists(common.driver_bin("C06")) and \
@@ -2075,6 +2126,7 @@ def run(ctx):
                            "C06-F2 (db690ec): if condition checked against bool",
                            "C06-F3 (d05f979): private fields no longer visible in a same-named class of another module"],
         "pending": ["the inference engine that decides where `any` placeholders arise (hints, lambda parameter inference) is not modelled",
+                    "cycle_detected_memo (memoised super-type walk, repair of C05-F6) is stated but not proved: exact sup tie + graph oracle only",
                     "cycle_detected is fuel-indexed; a fuel-free (well-founded) definition of resolveSupers and exactness of the collected list are not proved (the list is tied exactly by the sup stream)",
                     "gate kernels other than sup are tied by whole-program verdicts, not by function-level hooks",
                     "error *location* (module of the diagnostic) is observed by the oracle only; locations are not in the models",
